@@ -26,6 +26,8 @@ structure DSt where
   vs : VSpec := {}
   /-- the running prompt has returned: further `key` lines are not delivered to it -/
   done : Bool := false
+  /-- vi sessions: `vi_state.input_mode == NAVIGATION` -/
+  nav : Bool := false
 
 def encOptStr : Option Text → String
   | none => "N"
@@ -73,6 +75,23 @@ def parseKey : List String → Option Key
   | ["enter"] => some .enter
   | _ => none
 
+def parseViKey : List String → Option ViKey
+  | ["char", c] => do
+    match (← decStr c) with
+    | [ch] => some (.char ch)
+    | _ => none
+  | ["backspace"] => some .backspace
+  | ["escape"] => some .escape
+  | ["i"] => some .insertI
+  | ["a"] => some .appendA
+  | ["k", a] => do pure (.k (← decInt a))
+  | ["j", a] => do pure (.j (← decInt a))
+  | ["up", a] => do pure (.up (← decInt a))
+  | ["down", a] => do pure (.down (← decInt a))
+  | ["G", n] => do pure (.gotoG (← decNat n))
+  | ["enter"] => some .enter
+  | _ => none
+
 def parseOp : List String → Option Op
   | ["ins", d] => do pure (.insert (← decStr d))
   | ["delb", n] => do pure (.delBefore (← decNat n))
@@ -117,7 +136,7 @@ def stepLine1 (d : DSt) (toks : List String) : DSt × String :=
     ({ d with st := s }, showSt s "-")
   | ["prompt", dflt] =>
     match decStr dflt with
-    | some t => let s := promptStart d.st t; ({ d with st := s, done := false }, showSt s "-")
+    | some t => let s := promptStart d.st t; ({ d with st := s, done := false, nav := false }, showSt s "-")
     | none => (d, "bad-op")
   | ["promptacc", dflt] =>
     match decStr dflt with
@@ -125,6 +144,14 @@ def stepLine1 (d : DSt) (toks : List String) : DSt × String :=
       match promptAcceptDefault v d.st t with
       | (s, some r) => ({ d with st := s, done := true }, showSt s (encOut (.accepted r)))
       | (s, none) => ({ d with st := s, done := true }, showSt s (encOut .rejected))
+    | none => (d, "bad-op")
+  | "vkey" :: rest =>
+    if d.done then (d, "after-accept") else
+    match parseViKey rest with
+    | some k =>
+      let (vs, o) := viKeyStep v { st := d.st, nav := d.nav } k
+      let fin := match o with | .accepted _ => true | _ => false
+      ({ d with st := vs.st, nav := vs.nav, done := fin }, showSt vs.st (encBool vs.nav ++ " " ++ encOut o))
     | none => (d, "bad-op")
   | "key" :: rest =>
     if d.done then (d, "after-accept") else
